@@ -97,7 +97,8 @@ def generate(rng, idx, tier, variant):
             if rng.random() < 0.12 and not spec.get('dtype'):
                 # hooks / equations that call back into the library (copy the model, export it, evaluate an expression,
                 # solve a copy, make a call that is refused): solve() and the loop meet the same callbacks
-                base['cb'] = S.gen_callbacks(rng, spec, opts)
+                # (a nested solve goes to the period just solved only: later periods stay as they were if this one fails)
+                base['cb'] = S.gen_callbacks(rng, spec, opts, kinds=S.SAFE_CALLBACKS + ['nested_prev', 'nested_prev'])
             m = len(positions)
             if faults and m:
                 slot = idx % (m + 2)
@@ -360,6 +361,7 @@ def execute(schedule, ctx):
         outC, flagsC, failC = _loop(C, positions, opts, intr if intr and 'seam' in intr else None, 'solve_period', spec, span, extra=extra)
         postB, postC, postR = _snap(B), _snap(C), _snap(R)
 
+        nested_prev = any(cb.get('what') == 'nested_solve' for p_ in (op.get('plan') or {}).values() for cb in (p_ or {}).get('cb', ()))
         line_intr = outA['kind'] == 'interrupt' and 'line' in intr
         unique_labels = spec['span']['type'] != 'list_dup_inner'
         if not unique_labels:
@@ -393,7 +395,10 @@ def execute(schedule, ctx):
                     chk('result/labels', len(labels) == len(want_labels) and all(_eq_label(a, b) for a, b in zip(labels, want_labels)), {'got': [str(x) for x in labels], 'want': [str(x) for x in want_labels]})
                     chk('result/positions', [int(i) for i in idxs] == positions, {'got': [str(i) for i in idxs], 'want': positions})
                     chk('result/flags', list(flags) == flagsB and all(isinstance(f, (bool, np.bool_)) for f in flags), {'got': canon(list(flags)), 'want': flagsB})
+                    resolved_later = any(cb.get('what') == 'nested_solve' for p_ in (op.get('plan') or {}).values() for cb in (p_ or {}).get('cb', ()))
                     for t, f in zip(positions, flags):
+                        if resolved_later:
+                            break  # (a hook re-solved a period after its flag was returned: the flag is the earlier solve's)
                         chk('result/flag-true-iff-solved', bool(f) == (postA['status'][t] == '.'), {'t': t, 'flag': bool(f), 'status': str(postA['status'][t])})
             if outA['kind'] == 'raise' and outB['kind'] == 'raise':
                 chk('twin/exception-class', type(outA['exc']) is type(outB['exc']), None)
@@ -401,7 +406,8 @@ def execute(schedule, ctx):
 
         # ---- containment (crash consistency): some period p splits the state into R-prefix and untouched suffix
         if outA['kind'] in ('raise', 'interrupt') and positions:
-            ok, p = _containment(snap, postA, postR, positions, n)
+            # (where a hook re-solves the period before its own, two periods are in flight at once)
+            ok, p = _containment(snap, postA, postR, positions, n, slack=1 if nested_prev else 0)
             sig = 'containment/' + ('interrupt' if outA['kind'] == 'interrupt' else 'exception')
             chk(sig, ok, {'positions': positions, 'outcome': _cls(outA), 'status': [str(x) for x in postA['status'].tolist()], 'ref-status': [str(x) for x in postR['status'].tolist()]})
             if outA['kind'] == 'raise' and not line_intr and failB is not None:
@@ -413,7 +419,7 @@ def execute(schedule, ctx):
                 ctx.probe('interrupt:' + ('before-first-pass' if not probes.get_ctl(A).log else 'after-some-seam-calls'))
         if outA['kind'] == 'return' and positions:
             # every period of the range was visited, in order, and nothing outside the range changed
-            outside = [c for c in ref_solver.diff_cells(snap, postA) if not (positions[0] <= c[1] <= positions[-1])]
+            outside = [c for c in ref_solver.diff_cells(snap, postA) if not (positions[0] - (1 if nested_prev else 0) <= c[1] <= positions[-1])]
             chk('range/nothing-outside-changes', not outside, {'changed': outside[:8], 'positions': positions})
             visited = [t for t in positions if postA['status'][t] != snap['status'][t] or postA['iterations'][t] != snap['iterations'][t]]
             seen = []
@@ -452,9 +458,11 @@ def _loop(m, positions, opts, intr, how, spec, span, judge=None, extra=None):
             nr0 = len(ctl.raised)
             o = _outcome(lambda: m.solve_t(t, **S.solver_kwargs(opts), **extra))
             if o['kind'] != 'interrupt':
+                post_ = _snap(m)
+                S.neutralise_callbacks(ctl.plan, snap, post_, None, t)
                 call = {
                     'opts': opts, 'n': len(span), 't': t, 'endo': endo, 'check': check, 'exo': exo, 'snap': snap,
-                    'post': _snap(m), 'log': ctl.log[n0:], 'raised': ctl.raised[nr0:],
+                    'post': post_, 'log': ctl.log[n0:], 'raised': ctl.raised[nr0:],
                     'outcome': {'kind': 'return', 'value': o['value']} if o['kind'] == 'return' else {'kind': 'raise', 'exc': o['exc']},
                     'scripted': spec['kind'] == 'scripted', 'feasible': spec['lags'] <= t <= len(span) - 1 - spec['leads'], 'np_err': ctx.np_err,
                 }
@@ -480,13 +488,13 @@ def _loop(m, positions, opts, intr, how, spec, span, judge=None, extra=None):
     return out, flags, fail
 
 
-def _containment(snap, postA, postR, positions, n):
-    """Is there a period p such that A == R on periods < p and A == pre-call snapshot on periods > p?"""
+def _containment(snap, postA, postR, positions, n, slack=0):
+    """Is there a period p such that A == R on periods < p (- slack) and A == pre-call snapshot on periods > p?"""
     dR = ref_solver.diff_cells(postA, postR)
     dS = ref_solver.diff_cells(snap, postA)
     if any(c[1] < 0 for c in dR + dS):
         return False, None
     for p in positions + [positions[-1] + 1]:
-        if all(c[1] >= p for c in dR) and all(c[1] <= p for c in dS):
+        if all(c[1] >= p - slack for c in dR) and all(c[1] <= p for c in dS):
             return True, p
     return False, None
